@@ -29,7 +29,7 @@ DIMS = {
     'T': [['dec'], ['iso', 800.0], ['iso', 2000.0], ['inc'], ['hot1'], ['outside']],
     'mag': ['tau1', 'zero', 'thin', 'mixed', 'sat'],
     'ngauss': [2, 1, 3, 4, 6],
-    'contribs': [['abs'], ['abs', 'cia'], ['abs', 'ray'], []],
+    'contribs': [['abs'], ['abs', 'cia'], ['abs', 'ray'], [], ['abs', 'cia', 'ray'], ['ray', 'cia']],
     'kind': ['emission', 'directimage'],
     'opmode': ['xsec', 'kdeg', 'kspread'],
     'starT': [5000.0, 3000.0],
